@@ -542,12 +542,12 @@ pub fn c18_run(ctx: &Ctx) -> i32 {
 /// Decodes fuzzer bytes into a pair of u8 histories (domain 0..12) and judges them.
 pub fn c18_from_bytes(data: &[u8]) -> Result<(), Failure> {
     let mut it = data.iter().copied();
-    let mut decode = |it: &mut dyn Iterator<Item = u8>| -> Vec<Op<u8>> {
+    let decode = |it: &mut dyn Iterator<Item = u8>| -> Vec<Op<u8>> {
         let mut ops = vec![];
         let n = (it.next().unwrap_or(0) % 40) as usize;
         for _ in 0..n {
             let Some(k) = it.next() else { break };
-            let mut vals = |it: &mut dyn Iterator<Item = u8>| -> Vec<u8> {
+            let vals = |it: &mut dyn Iterator<Item = u8>| -> Vec<u8> {
                 let m = (it.next().unwrap_or(0) % 6) as usize;
                 (0..m).map(|_| it.next().unwrap_or(0) % 12).collect()
             };
